@@ -42,13 +42,18 @@ DT_RES = 'option (N * string)'
 TS_FN = "fun '(k, s) => to_string_n k s"
 TS_CASE = 'N * string'
 TS_RES = 'string'
-AR_IMPORTS = 'Model.Num Model.Arrow'
-LA_FN = "fun '(a, b) => wf_listarr a && wf_listarr b && eqbc (decode_flat a) (decode_flat b)"
+AR_IMPORTS = 'Model.Num Model.Arrow Spec.BoundsSpec'
+LA_FN = ("fun '(a, b) => wf_listarr a && wf_listarr b && nulls_empty a && nulls_empty b && "
+         "eqbc (decode_flat a) (decode_flat b)")
 FA_FN = "fun '(a, b) => wf_fixarr a && wf_fixarr b && eqbc (fa_decode a) (fa_decode b)"
 
 KIND_ORDER = ['multiline', 'polygon', 'multipolygon', 'line', 'multipoint', 'ring', 'point']
 
 READ_LOG = []
+DD_LOG = []
+CN_FN = "fun '(ix, cols) => cols_no_index ix cols"
+CN_CASE = 'list idxdesc * option (list string)'
+CN_RES = 'option (list string)'
 
 
 class _Recorder:
@@ -73,10 +78,17 @@ class recording:
         self.m = m
         _Recorder.real = m.ParquetDataset
         m.ParquetDataset = _Recorder
+        self.dd = m.dd_read_parquet
+
+        def dd_rec(path, columns=None, **k):
+            DD_LOG.append(None if columns is None else list(columns))
+            return self.dd(path, columns=columns, **k)
+        m.dd_read_parquet = dd_rec
         return self
 
     def __exit__(self, *a):
         self.m.ParquetDataset = _Recorder.real
+        self.m.dd_read_parquet = self.dd
 
 
 def md_terms(md):
@@ -100,9 +112,18 @@ class Acc:
         self.la = ([], [], [])
         self.fa = ([], [], [])
         self.rc_seen = set()
+        self.cn = ([], [], [])
 
 
 def flush_read_log(acc, requested, meta):
+    if DD_LOG and READ_LOG:
+        # columns handed to Dask's reader for the meta frame (index columns taken out)
+        _, idx = md_terms(READ_LOG[0][0])
+        for passed in DD_LOG:
+            acc.cn[0].append((idx, None if requested is None else C.Some(list(requested))))
+            acc.cn[1].append(None if passed is None else C.Some(passed))
+            acc.cn[2].append({**meta, 'passed_to_dask': passed})
+    DD_LOG.clear()
     for md, passed in READ_LOG:
         cols, idx = md_terms(md)
         case = (cols, idx, None if requested is None else C.Some(list(requested)))
@@ -234,7 +255,8 @@ def pandas_roundtrip(rep, acc, sc, cfg):
     path = sc.new('f') + '.parq'
     meta = {'stream': 'roundtrip', 'path_kind': 'pandas', 'cfg': cfg, 'index_kind': cfg['index_kind']}
     try:
-        to_parquet(df, path, compression=cfg['compression'])
+        kw = {'row_group_size': cfg['row_group_size']} if cfg.get('row_group_size') else {}
+        to_parquet(df, path, compression=cfg['compression'], **kw)
     except Exception as e:
         rep.violation('write-raises:pandas:' + type(e).__name__, f'to_parquet raised {e!r}'[:300], meta)
         return
@@ -289,6 +311,7 @@ def dask_roundtrip(rep, acc, sc, cfg):
         for proj in (cfg.get('projections') or projections(rng, frames[0], cfg['quick'])):
             m = {**meta, 'columns': proj, 'how': how}
             READ_LOG.clear()
+            DD_LOG.clear()
             try:
                 r = read_parquet_dask(arg, columns=proj)
                 got = r.compute()
@@ -444,7 +467,8 @@ def configs(rep, tier):
             k2, s2 = rng.choice(combos)
             pand.append({'kinds': (k, k2), 'subtypes': (s, s2), 'nrows': rng.choice([1, 2, 5, 9, 14]),
                          'index_kind': pidx[i % len(pidx)], 'derive': i % 2, 'nan_p': rng.choice([0, 0, 0.2]),
-                         'compression': comp[i % 3], 'seed': rng.randrange(10 ** 9), 'quick': quick})
+                         'compression': comp[i % 3], 'seed': rng.randrange(10 ** 9), 'quick': quick,
+                         'row_group_size': 2 if i % 4 == 3 else None})
             i += 1
     nd = 36 if quick else 420
     parts_cycle = [1, 2, 3, 11, 12, 5, 10, 12, 4, 11, 7, 12] if quick else list(range(1, 13))
@@ -484,6 +508,11 @@ def finish(rep, acc):
         rep.violation('read-columns-differ',
                       'the columns read_parquet hands to pyarrow differ from Model/ParquetCols.v read_columns',
                       {**acc.rc[2][i], 'model': C.coq_eval(PC_IMPORTS, f'({RC_FN}) {C.coq(acc.rc[0][i])}')})
+    bad = C.coq_mismatches(PC_IMPORTS, CN_FN, CN_CASE, CN_RES, *acc.cn[:2])
+    for i in bad[:3]:
+        rep.violation('cols-no-index-differ',
+                      'the columns read_parquet_dask hands to Dask for the meta frame differ from Model/ParquetCols.v',
+                      {**acc.cn[2][i], 'model': C.coq_eval(PC_IMPORTS, f'({CN_FN}) {C.coq(acc.cn[0][i])}')})
     for fn, ty, (cases, ress, metas) in ((LA_FN, 'listarr * listarr', acc.la), (FA_FN, 'fixarr * fixarr', acc.fa)):
         bad = C.coq_mismatches(AR_IMPORTS, fn, ty, 'bool', cases, ress, shard=60)
         for i in bad[:3]:
@@ -500,7 +529,7 @@ def run(rep):
     rep.rule = ('frames of 2 geometry columns (7 kinds x 5 subtypes, missing / empty / NaN-coordinate elements, '
                 'plain / sliced / concatenated / taken source arrays) + int, float(NaN) and str payload columns in '
                 'shuffled column order; index kinds ' + ', '.join(U.INDEX_KINDS) + ' (MultiIndex on the pandas '
-                'path only: Dask has none); compression snappy / gzip / None; Dask: 1..12 partitions, sort / no '
+                'path only: Dask has none); compression snappy / gzip / None; row groups of 2 rows in a quarter of the files; Dask: 1..12 partitions, sort / no '
                 'sort, one dataset or two by list and by glob; projections: None, one geometry column, reversed, '
                 'random subset in random order, index column requested explicitly.  dtype names: 7 kinds x 16 '
                 'subtype spellings x case / bracket / suffix / newline mutations + random strings.  Every round '
